@@ -86,6 +86,8 @@ class FileBasedCollectionMetadata(CollectionMetadata):
         if url is not None:
             self._configparser["DEFAULT"]["source"] = url
         else:
+            if "source" not in self._configparser["DEFAULT"]:
+                return
             del self._configparser["DEFAULT"]["source"]
         self._save("Set source URL.")
 
@@ -105,6 +107,8 @@ class FileBasedCollectionMetadata(CollectionMetadata):
         if color is not None:
             self._configparser["DEFAULT"]["color"] = color
         else:
+            if "color" not in self._configparser["DEFAULT"]:
+                return
             del self._configparser["DEFAULT"]["color"]
         self._save("Set color.")
 
@@ -112,6 +116,8 @@ class FileBasedCollectionMetadata(CollectionMetadata):
         if displayname is not None:
             self._configparser["DEFAULT"]["displayname"] = displayname
         else:
+            if "displayname" not in self._configparser["DEFAULT"]:
+                return
             del self._configparser["DEFAULT"]["displayname"]
         self._save("Set display name.")
 
@@ -119,6 +125,8 @@ class FileBasedCollectionMetadata(CollectionMetadata):
         if description is not None:
             self._configparser["DEFAULT"]["description"] = description
         else:
+            if "description" not in self._configparser["DEFAULT"]:
+                return
             del self._configparser["DEFAULT"]["description"]
         self._save("Set description.")
 
@@ -126,6 +134,8 @@ class FileBasedCollectionMetadata(CollectionMetadata):
         if comment is not None:
             self._configparser["DEFAULT"]["comment"] = comment
         else:
+            if "comment" not in self._configparser["DEFAULT"]:
+                return
             del self._configparser["DEFAULT"]["comment"]
         self._save("Set comment.")
 
@@ -140,12 +150,14 @@ class FileBasedCollectionMetadata(CollectionMetadata):
         return self._configparser["calendar"]["order"]
 
     def set_order(self, order):
-        try:
-            self._configparser.add_section("calendar")
-        except configparser.DuplicateSectionError:
-            pass
         if order is None:
+            if not self._configparser.has_option("calendar", "order"):
+                return
             del self._configparser["calendar"]["order"]
         else:
+            try:
+                self._configparser.add_section("calendar")
+            except configparser.DuplicateSectionError:
+                pass
             self._configparser["calendar"]["order"] = order
         self._save("Set calendar order.")
